@@ -16,6 +16,7 @@ class StubDUL(object):
         self.killed = False
         self.stopped = 0
         self.on_send = None
+        self.pump = None
         StubDUL.instances.append(self)
 
     def send(self, primitive):
@@ -28,6 +29,8 @@ class StubDUL(object):
 
     def receive(self, timeout):
         from pynetdicom2 import exceptions
+        if not self.inbox and self.pump:
+            self.pump()
         if not self.inbox:
             raise exceptions.DCMTimeoutError()
         item = self.inbox.popleft()
